@@ -103,8 +103,13 @@ class Beat(Task):
             est = sorted(est)
         else:
             est = self._track(rng)
-        if rng.random() < 0.1 and len(ref) >= 2:   # a duplicated reference beat is a valid annotation
+        u = rng.random()
+        if u < 0.1 and len(ref) >= 2:   # a duplicated reference beat is a valid annotation
             ref = sorted(ref + [rng.choice(ref)])
+        elif u < 0.13 and len(ref) >= 2:  # every reference beat annotated twice
+            ref = sorted(ref + ref)
+        elif u < 0.16 and len(ref) >= 1:  # all reference beats at one instant
+            ref = [ref[0]] * rng.choice([2, 3])
         return {"ref": [S(x) for x in ref], "est": [S(x) for x in est]}
 
     def gen_self(self, rng):
